@@ -129,7 +129,7 @@ class C20(Prop):
         "SimFS keeps a reference to every object it hands out)",
         "SimRaw.close releases the handle even when the injected close error is raised (close(2) semantics)",
     ]
-    quick = {"runs": 480, "wall": 45}
+    quick = {"runs": 4000, "wall": 60}
     thorough = {"runs": 40000, "wall": 900}
 
     def gen(self, st, tier, index):
